@@ -6,10 +6,10 @@ from oracles import o_fock
 
 def run(ctx):
     ctx.assumptions += [
-        "C07 is decided by: the generic theorems C01-C03 (any BlockAlg) + C08 (NumberOrderedForm arithmetic is a *-homomorphism into operators on Fock space) + C16_scalar (the second-quantised solver solves the Sylvester equation as an operator identity) + C07_mask (apply_mask_to_operator is an additive idempotent selection commuting with the adjoint and with functions of number operators); the instance 'BlockAlg of series of matrices of number-ordered forms' is NOT constructed in Coq, and the equality with TRUNCATED matrices away from the edge (band locality) is not formalised: partial, decided on the implementation by the oracle o_fock",
+        "C07 is decided by: the generic theorems C01-C03 (any BlockAlg) + C08 (NumberOrderedForm arithmetic is a *-homomorphism into operators on Fock space) + C16_scalar (the second-quantised solver solves the Sylvester equation as an operator identity) + C07_mask (apply_mask_to_operator is an additive idempotent selection commuting with the adjoint and with functions of number operators); Props/C07_fock.v: the algebra of multi-index series of INFINITE row- and column-finite matrices over a countable Fock basis (Series/InstRCF.v, Block/RCF.v) is a BlockAlg, the diagonal solver on a number-conserving H_0 with energies E : nat -> R wires it (rcf_wiring, non-degenerate coupled levels = inv_spec on eliminated pairs), so C01/C02/C03 hold for operators on Fock space (C07_fock_kept/_eliminated/_unitary/_adjoint/_gauge; Example: the boson annihilator). Not formalised: that the NumberOrderedForm denotations of C08 assemble into elements of that algebra with Sel = apply_mask (the *-homomorphism is C08, the identification of the scope functions is by the ties k_mask/k_nof), and the equality with TRUNCATED matrices away from the edge (band locality): partial, decided on the implementation by the oracle o_fock",
         "sympy simplification (_poly_simplify, simplify, xreplace) is assumed to preserve denotations",
     ]
-    for v in ("Props/C07_mask.v", "Props/C08.v", "Props/C16_scalar.v", "Props/C01.v", "Props/C02.v"):
+    for v in ("Props/C07_fock.v", "Props/C07_mask.v", "Props/C08.v", "Props/C16_scalar.v", "Props/C01.v", "Props/C02.v"):
         ctx.proof(v)
     ctx.tie("k_mask", k_nof.tie_mask)
     ctx.tie("k_nof", k_nof.tie_nof)
